@@ -17,6 +17,8 @@ PATTERNS = {
     # non-dyadic end points: the affine scaling map does not round-trip exactly
     "oddw": (0.1, 0.7, 0.3, 0.1, 1.5),
     "oddn": (-0.8, 0.3, 0.1, 0.3, -1.5),
+    # large magnitude: radii and steps of order 1e5 (rounding of constraint residuals grows with the step)
+    "big": (-2.0 ** 20, 2.0 ** 20, 2.0 ** 18 + 0.25, -2.0 ** 20, 2.0 ** 21),
     "fixed": (0.5, 0.5, 0.5, 0.5, 2.0),
     "fixulp": (0.5, float(np.nextafter(0.5, 1.0)), 0.5, 0.5, -1.0),
 }
